@@ -762,7 +762,7 @@ def run(ctx):
     r3(ctx)
     r4(ctx)
     import rules.C08 as c08
-    ctx.borrow(c08.run, {'C08.R1': 'C09.R5', 'C08.R2': 'C09.R6'},
+    ctx.borrow(c08.run, {'C08.R1': 'C09.R5', 'C08.R2': 'C09.R6', 'C08.R3': 'C09.R20'},
                'the built telegram must be identified back to the same definition, and a chained part is stored into the '
                'slot that checkId selects')
     r7(ctx)
